@@ -593,9 +593,28 @@ pub fn run_c11_flips(ctx: &mut Ctx) -> R {
         return Ok(());
     }
     ctx.describe(|| format!("all single-bit flips of a {}-byte metadata section: {:?}", bytes.len(), blocks.iter().map(|b| format!("{}", b.block_type())).collect::<Vec<_>>()));
-    for bit in 0..bytes.len() * 8 {
+    // coordinates: every single-bit flip, then runs of all ones / all zeros (3 and 8 bytes at every byte
+    // offset): fields taking their extreme values
+    let nbits = bytes.len() * 8;
+    let mut coords: Vec<(usize, usize, u8)> = (0..nbits).map(|b| (b, 0, 2u8)).collect();
+    for at in 4..bytes.len() {
+        for len in [3usize, 8] {
+            coords.push((at, len, 0xFF));
+            coords.push((at, len, 0x00));
+        }
+    }
+    for (ci, (bit, len, fill)) in coords.iter().copied().enumerate() {
         let mut b = bytes.clone();
-        b[bit >> 3] ^= 0x80 >> (bit & 7);
+        if fill == 2 {
+            b[bit >> 3] ^= 0x80 >> (bit & 7);
+        } else {
+            let e = (bit + len).min(b.len());
+            for x in &mut b[bit..e] {
+                *x = fill;
+            }
+            probe("c11_extreme_value_run");
+        }
+        let bit = if fill == 2 { bit } else { ci };
         let d = Disk::new(&ctx.ch, false);
         let f = d.create(b.clone());
         let r = catch_unwind(AssertUnwindSafe(|| {
@@ -617,9 +636,9 @@ pub fn run_c11_flips(ctx: &mut Ctx) -> R {
             Err(_) => {
                 let (loc, msg) = take_panic().unwrap_or_default();
                 let v = crate::classify_panic(&loc, &msg);
-                return viol(v.class, format!("flip of bit {bit} in a metadata section: {msg}"));
+                return viol(v.class, format!("damage coordinate {:?} in a metadata section: {msg}", coords[ci]));
             }
-            Ok(Err(t)) => return viol("meta-mismatch", format!("flip of bit {bit}: {t}")),
+            Ok(Err(t)) => return viol("meta-mismatch", format!("damage coordinate {:?} (bit | (offset, length, fill)): {t}", coords[ci])),
             Ok(Ok(accepted)) => {
                 ctx.eval_fp(mix(bit as u64, accepted as u64) ^ d.fp(), true);
                 if accepted {
